@@ -1,11 +1,11 @@
 --------------------------- MODULE StmtWireTrace ---------------------------
 (* Trace validation of the real parser and the real statement wire (harness `vdrive stmtwire`)       *)
 (* against StmtWire.  The driver logs projections of the REAL trees: before the wire (a), after it   *)
-(* (b), of a second parse (a2), and the real bytes of stmt.Marshal as a JSON value (w).  The wire      *)
+(* (b), of a second parse (a2), and the real bytes of stmt.Marshal as a JSON value (w).  The wire    *)
 (* events are pure; the judgement is the enabling condition of the event's action.                   *)
-(* Overlapping parse calls (ParseRef / ParseBegin / ParseEnd): `ref` is the function text -> result   *)
-(* as the sequential parses of the trace (no call in flight) have shown it, `open` the calls in       *)
-(* flight; the result r of a call is the statement's projection or [k |-> "error"].                   *)
+(* Overlapping parse calls (ParseRef / ParseBegin / ParseEnd): `ref` is the function text -> result  *)
+(* as the sequential parses of the trace (no call in flight) have shown it, `open` the calls in      *)
+(* flight; the result r of a call is the statement's projection or [k |-> "error"].                  *)
 EXTENDS StmtWire, Json
 
 Trace == ndJsonDeserialize("trace.ndjson")
